@@ -257,8 +257,8 @@ def run(tier):
             if o.get("first") is not None:
                 accept.setdefault("parse_node%s" % (args,), set()).update(E.tok_names[x] for x in o["first"])
     rep.extra["accept_sets"] = {k: sorted(v) for k, v in sorted(accept.items())}
-    rep.floor("handler instances analysed", n_inst, 24)
-    rep.floor("non-error handler outcomes", n_out, 150)
+    rep.floor("handler instances analysed", n_inst, 20)
+    rep.floor("non-error handler outcomes", n_out, 120)
     for pb in E.problems:
         rep.incomplete(pb)
 
@@ -347,7 +347,7 @@ def run(tier):
                 bad = [l for l in leaves if not (l == ("const", 0) or (l[0] == "call" and l[1] == P + "register_anchor") or l[0] == "param")]
                 rep.check(not bad, "anchor-payload", "%s:%s" % (short(k), var), "an anchor id in an event comes from neither register_anchor nor the literal 0",
                           site=site(f, s["sp"]), detail=[str(b)[:80] for b in bad])
-    rep.floor("events carrying anchor ids", n_ev, 8)
+    rep.floor("events carrying anchor ids", n_ev, 6)
     return rep
 
 
